@@ -142,7 +142,10 @@ impl<'a> WireFormat<'a> for ResourceRecord<'a> {
     fn write_to<T: std::io::Write>(&self, out: &mut T) -> crate::Result<()> {
         self.name.write_to(out)?;
         self.write_common(out)?;
-        out.write_all(&(self.rdata.len() as u16).to_be_bytes())?;
+        // RDLENGTH is a 16 bits field, longer RDATA can't be written
+        let rdata_len = u16::try_from(self.rdata.len())
+            .map_err(|_| crate::SimpleDnsError::InvalidDnsPacket)?;
+        out.write_all(&rdata_len.to_be_bytes())?;
         self.rdata.write_to(out)
     }
 
@@ -160,8 +163,11 @@ impl<'a> WireFormat<'a> for ResourceRecord<'a> {
         self.rdata.write_compressed_to(out, name_refs)?;
         let end = out.stream_position()?;
 
+        // RDLENGTH is a 16 bits field, longer RDATA can't be written
+        let rdata_len = u16::try_from(end - len_position - 2)
+            .map_err(|_| crate::SimpleDnsError::InvalidDnsPacket)?;
         out.seek(std::io::SeekFrom::Start(len_position))?;
-        out.write_all(&((end - len_position - 2) as u16).to_be_bytes())?;
+        out.write_all(&rdata_len.to_be_bytes())?;
         out.seek(std::io::SeekFrom::Start(end))?;
         Ok(())
     }
